@@ -17,6 +17,10 @@ pub enum Kind {
     Create,
     Create2,
     CreateTx,
+    /// EOFCREATE from an EOF contract (OSAKA)
+    EofCreate,
+    /// creation transaction carrying an EOF init container (OSAKA)
+    EofCreateTx,
 }
 #[derive(Clone, Copy, Debug, PartialEq, Eq, Hash, Serialize, Deserialize)]
 pub enum Layer {
@@ -55,14 +59,22 @@ pub fn target_of(kind: Kind, pretouch: bool) -> Address {
     match kind {
         Kind::Create => A.create(1),
         Kind::Create2 => A.create2(U256::from(5).to_be_bytes::<32>(), keccak256(init_code())),
-        Kind::CreateTx => SENDER.create(pretouch as u64),
+        Kind::CreateTx | Kind::EofCreateTx => SENDER.create(pretouch as u64),
+        Kind::EofCreate => A.create2([0u8; 32], keccak256(crate::props::c26::sub_init())),
     }
 }
 fn creator_code(kind: Kind) -> Vec<u8> {
     let a = match kind {
         Kind::Create => Asm::new().create(U256::ZERO, &init_code()),
         Kind::Create2 => Asm::new().create2(U256::ZERO, &init_code(), 5),
-        Kind::CreateTx => return vec![op::STOP],
+        Kind::CreateTx | Kind::EofCreateTx => return vec![op::STOP],
+        Kind::EofCreate => {
+            // EOFCREATE(value 0, salt 0, no input) of the init container; the result goes to slot 0
+            // (GAS does not exist in EOF code: the gas consumed is read from the transaction result)
+            let mut c = crate::props::c26::Cont::simple(vec![0x5f, 0x5f, 0x5f, 0x5f, 0xec, 0x00, 0x5f, 0x55, 0x00], 4);
+            c.containers = vec![crate::props::c26::sub_init()];
+            return c.raw();
+        }
     };
     // store the result (created address or 0) and the gas left afterwards
     a.push_u(0).op(op::SSTORE).op(op::GAS).push_u(1).op(op::SSTORE).op(op::STOP).build()
@@ -95,6 +107,10 @@ pub fn tx_case(c: &Case21) -> TxCase {
     if c.kind == Kind::CreateTx {
         tc.tx.to = None;
         tc.tx.data = init_code().into();
+    }
+    if c.kind == Kind::EofCreateTx {
+        tc.tx.to = None;
+        tc.tx.data = crate::props::c26::sub_init().into();
     }
     tc
 }
@@ -189,7 +205,7 @@ fn check_inner(c: &Case21) -> (Vec<(String, String)>, String) {
     };
     let tc = tx_case(c);
     let (created, sig) = match c.kind {
-        Kind::CreateTx => {
+        Kind::CreateTx | Kind::EofCreateTx => {
             let ok = r.result.is_success();
             if expect_collision && !(r.result.is_halt() && r.result.gas_used() == tc.tx.gas_limit) {
                 v.push((format!("collision-not-detected:{:?}:{:?}", c.kind, c.layer), format!("create transaction onto an address with code={} nonce={} storage={} ended with {:?}", c.code, c.nonce, c.storage, r.result)));
@@ -210,7 +226,11 @@ fn check_inner(c: &Case21) -> (Vec<(String, String)>, String) {
             }
             let a = r.state.get(&A);
             let res = a.and_then(|a| a.storage.get(&U256::ZERO)).map(|s| s.present_value).unwrap_or_default();
-            let gas_left = a.and_then(|a| a.storage.get(&U256::from(1))).map(|s| s.present_value).unwrap_or_default();
+            let gas_left = if c.kind == Kind::EofCreate {
+                U256::from(tc.tx.gas_limit - r.result.gas_used())
+            } else {
+                a.and_then(|a| a.storage.get(&U256::from(1))).map(|s| s.present_value).unwrap_or_default()
+            };
             let nonce = a.map(|a| a.info.nonce).unwrap_or(0);
             if nonce != 2 {
                 v.push(("creator-nonce".into(), format!("creator nonce is {nonce}, expected 2")));
@@ -253,11 +273,14 @@ pub fn replay(case: &Value) -> Vec<Violation> {
 }
 
 pub fn run(ctx: &Ctx) -> i32 {
-    let specs = [SpecId::FRONTIER, SpecId::HOMESTEAD, SpecId::TANGERINE, SpecId::SPURIOUS_DRAGON, SpecId::BYZANTIUM, SpecId::PETERSBURG, SpecId::ISTANBUL, SpecId::BERLIN, SpecId::LONDON, SpecId::SHANGHAI, SpecId::CANCUN, SpecId::PRAGUE];
+    let specs = [SpecId::FRONTIER, SpecId::HOMESTEAD, SpecId::TANGERINE, SpecId::SPURIOUS_DRAGON, SpecId::BYZANTIUM, SpecId::PETERSBURG, SpecId::ISTANBUL, SpecId::BERLIN, SpecId::LONDON, SpecId::SHANGHAI, SpecId::CANCUN, SpecId::PRAGUE, SpecId::OSAKA];
     let mut cases = vec![];
     for s in specs {
-        for kind in [Kind::Create, Kind::Create2, Kind::CreateTx] {
+        for kind in [Kind::Create, Kind::Create2, Kind::CreateTx, Kind::EofCreate, Kind::EofCreateTx] {
             if kind == Kind::Create2 && !s.is_enabled_in(SpecId::CONSTANTINOPLE) {
+                continue;
+            }
+            if matches!(kind, Kind::EofCreate | Kind::EofCreateTx) && !s.is_enabled_in(SpecId::OSAKA) {
                 continue;
             }
             for layer in LAYERS {
@@ -303,8 +326,8 @@ pub fn run(ctx: &Ctx) -> i32 {
         .collect();
     let acc = merge_all(accs);
     let meta = Meta {
-        rule: "target pre-state in {code, nonce, storage, balance}^4 x {CREATE, CREATE2, create transaction} x 8 database layers (plain database, &mut, Box, WrapDatabaseRef, State, State with bundle tracking, CacheDB over it, storage inserted into CacheDB) x 12 specs; for the committing layers also after an earlier committed transaction sent 1 wei to the target, and for the storage-only target also with a database that keeps no account record for it; distinct = distinct (spec, kind, layer, pre-state, created?)".into(),
-        assumptions: vec!["EOFCREATE / EOF create transactions (OSAKA) are not driven".into(), "the plain test database implements has_storage from its own maps".into()],
+        rule: "target pre-state in {code, nonce, storage, balance}^4 x {CREATE, CREATE2, create transaction; under OSAKA also EOFCREATE and an EOF creation transaction} x 8 database layers (plain database, &mut, Box, WrapDatabaseRef, State, State with bundle tracking, CacheDB over it, storage inserted into CacheDB) x 13 specs; for the committing layers also after an earlier committed transaction sent 1 wei to the target, and for the storage-only target also with a database that keeps no account record for it; distinct = distinct (spec, kind, layer, pre-state, created?)".into(),
+        assumptions: vec!["the plain test database implements has_storage from its own maps".into()],
         bounds: json!({"cases": cases.len()}),
         min_distinct: 500,
         exhaustive: true,
